@@ -260,6 +260,10 @@ def gen_text(rng, w):
                               "zcvpkg_no_such_package", "os",
                               "zcvpkg..x"] +
                              ([w.base] if w.base else []))
+            if rng.random() < 0.2:
+                # a name that only becomes empty (or blank) when expanded
+                lines.append("%define zcv_nothing" + rng.choice(["", "  "]))
+                bad = rng.choice(["${zcv_nothing}", "$zcv_nothing"])
             lines.append("%import " + bad)
             kinds.append("B")
         elif r < 0.4 and w.schema_level:
